@@ -264,11 +264,13 @@ def gen_simple_ops(p, rng, n, allow_or=True, allow_wrap=False, depth=0, caps=0.0
         op = rng.choice(choices)
         if op in WRAP:
             first = WRAP[op][1]
-            inner = [mk_act(p, rng, first, caps, names_avail, step)]
+            # captures inside wrappers make a program sync-only (see Prog.sync_only); keep them to a minority
+            inner_caps = caps if getattr(p, "caps_in_wrap", False) else 0.0
+            inner = [mk_act(p, rng, first, inner_caps, names_avail, step)]
             if op in ("WAndThen", "WOrElse"):
-                inner += gen_simple_ops(p, rng, rng.randint(0, 2), allow_or, allow_wrap, depth + 1, caps, names_avail, step)
+                inner += gen_simple_ops(p, rng, rng.randint(0, 2), allow_or, allow_wrap, depth + 1, inner_caps, names_avail, step)
             elif op in ("WMap", "WMapErr") and rng.random() < 0.4:
-                inner.append(mk_act(p, rng, first, caps, names_avail, step))
+                inner.append(mk_act(p, rng, first, inner_caps, names_avail, step))
             acts.append(Act(op, 0, inner=inner, explicit_close=rng.random() < 0.6))
         else:
             acts.append(mk_act(p, rng, op, caps, names_avail, step))
@@ -314,16 +316,17 @@ def gen_profile_prog(pid, profile, rng):
     return p
 
 
-def gen_rand_prog(pid, rng, max_branches=5, max_steps=4):
+def gen_rand_prog(pid, rng, max_branches=5, max_steps=4, async_ok=False):
     p = Prog(pid)
     p.tags = ["rand"]
     n = rng.choice([1, 2, 2, 3, 3, 4, 5][: max_branches + 2])
     n = min(n, max_branches)
-    sync_only = rng.random() < 0.25
+    sync_only = rng.random() < 0.25 and not async_ok
     named = [rng.random() < 0.45 for _ in range(n)]
     names_avail = [i for i, x in enumerate(named) if x]
     caps = rng.choice([0.0, 0.3, 0.6])
     wrap = rng.random() < 0.6
+    p.caps_in_wrap = rng.random() < 0.3 and not async_ok
     for bi in range(n):
         d = rng.randint(1, max_steps)
         steps = []
@@ -465,6 +468,10 @@ def build_corpus(tier, seed):
         pid += 1
     for _ in range(nrand):
         progs.append((gen_rand_prog(pid, rng), True))
+        pid += 1
+    for _ in range(nrand // 3):
+        # programs that are guaranteed to be instantiable under the six async macros as well
+        progs.append((gen_rand_prog(pid, rng, max_branches=4, max_steps=3, async_ok=True), True))
         pid += 1
     for _ in range(njoin):
         progs.append((gen_joiner_prog(pid, rng), True))
